@@ -43,6 +43,7 @@ CONSTANTS
     PrefixedWhiteoutLookup, \* Lookup serves the whiteout OF a hidden name (.wh..wh.foo -> .wh.foo)
     OpaqueByMode,           \* opaque xattr names follow the configured mode
     WhiteoutAttr,           \* whiteouts get entryToWhAttr (0/0 char device), not the raw file's attributes
+    MemWhiteoutAttr,        \* ... also when Lookup finds the whiteout among the in-memory children
     WriterDropsToc          \* eStargz writer drops a root entry named stargz.index.json
 
 VARIABLES
@@ -117,7 +118,7 @@ Lookup(n) ==
             /\ UNCHANGED <<cached, ents, mem>>
        ELSE IF n \in DOMAIN mem
        THEN \* "lookup on memory nodes"
-            /\ last' = Found(n, mem[n].kind, mem[n].ino)
+            /\ last' = Found(n, IF mem[n].kind = "chr" /\ ~MemWhiteoutAttr THEN KindOf(mem[n].ino) ELSE mem[n].kind, mem[n].ino)
             /\ UNCHANGED <<cached, ents, mem>>
        ELSE IF cached /\ n \notin NamesOf(ents)
        THEN \* "early return if this entry doesn't exist"
